@@ -448,10 +448,49 @@ def encodeIntoListS (san : Bool) : List Val → Bytes → Bytes
   | v :: vs, buf => encodeIntoListS san vs (encodeIntoS san v buf)
 end
 
+mutual
+/-- encoder 3, `OptimizedConnectionHandler::encode_resp_into` (connection_optimized.rs): the PRIVATE
+    encoder every reply of the production server goes through — its own `match`, transcribed arm by
+    arm (`opt-itoa-encode` is off).  `merged = true` is the variant in which the two null arms are
+    one arm writing `$-1\r\n` (kept for the counterexample `null_array_as_null_bulk_counterexample`);
+    the code as it is has `merged = false`. -/
+def encodeConnS (san merged : Bool) : Val → Bytes → Bytes
+  | .simple s, buf => buf ++ [43] ++ sanitize san s ++ crlf
+  | .error s, buf => buf ++ [45] ++ sanitize san s ++ crlf
+  | .int n, buf => buf ++ [58] ++ showInt n ++ crlf
+  | .nullBulk, buf => buf ++ [36, 45, 49, 13, 10]
+  | .bulk b, buf => buf ++ [36] ++ dec b.length ++ crlf ++ b ++ crlf
+  | .nullArray, buf => if merged then buf ++ [36, 45, 49, 13, 10] else buf ++ [42, 45, 49, 13, 10]
+  | .array a, buf => encodeConnListS san merged a (buf ++ [42] ++ dec a.length ++ crlf)
+def encodeConnListS (san merged : Bool) : List Val → Bytes → Bytes
+  | [], buf => buf
+  | v :: vs, buf => encodeConnListS san merged vs (encodeConnS san merged v buf)
+end
+
+/-- the prefixes after which `encode_error_into` does not insert `ERR ` -/
+def errPrefixes : List Bytes :=
+  [[69, 82, 82, 32], [87, 82, 79, 78, 71, 84, 89, 80, 69, 32], [87, 82, 79, 78, 71, 80, 65, 83, 83, 32],
+   [69, 88, 69, 67, 65, 66, 79, 82, 84, 32], [78, 79, 65, 85, 84, 72, 32], [78, 79, 80, 69, 82, 77, 32]]
+
+/-- the error text `encode_error_into` puts on the wire for `msg` (before line sanitising) -/
+def errText (msg : Bytes) : Bytes :=
+  if errPrefixes.any (fun p => p.isPrefixOf msg) then msg else [69, 82, 82, 32] ++ msg
+
+/-- `OptimizedConnectionHandler::encode_error_into(msg)`: `-`, `ERR ` unless the text already starts
+    with a known error prefix, the text through `put_line`, CR LF -/
+def encodeErr (msg : Bytes) : Bytes :=
+  [45] ++ (if errPrefixes.any (fun p => p.isPrefixOf msg) then [] else [69, 82, 82, 32]) ++ sanitize true msg ++ crlf
+
 /-- the encoders after the fix (lines sanitised) -/
 def encode2 (v : Val) : Bytes := encode2S true v
 def encode1 (v : Val) : Bytes := encodeIntoS true v []
-def encode3 (v : Val) : Bytes := encodeIntoS true v []
+/-- encoder 3: the connection handler's -/
+def encode3 (v : Val) : Bytes := encodeConnS true false v []
+/-- encoder 4, `SimulatedConnection::encode_resp` (simulator/connection.rs): the same buffer-appending
+    text as `RespCodec::encode_into` over `RespValue` -/
+def encode4 (v : Val) : Bytes := encodeIntoS true v []
+/-- the seeded variant of encoder 3: `RespValue::BulkString(None) | RespValue::Array(None)` in one arm -/
+def encode3Merged (v : Val) : Bytes := encodeConnS true true v []
 /-- the encoders as they were before the fix (lines copied verbatim) -/
 def encode2Pinned (v : Val) : Bytes := encode2S false v
 def encode1Pinned (v : Val) : Bytes := encodeIntoS false v []
